@@ -599,6 +599,32 @@ func detObserveDecoded(g *Gen) string {
 // detDecodePrograms: kind, program.
 func detDecodePrograms(g *Gen, n int) [][2]string {
 	var out [][2]string
+	// names that exist only as STRING keys / values until a codec walks the hash
+	strHash := func() string {
+		var sb strings.Builder
+		sb.WriteString("(hash")
+		for i, k := range detFreshNames(g, 2+g.Rng.Intn(6)) {
+			v := strconv.Itoa(i + 1)
+			if g.Rng.Intn(4) == 0 {
+				v = `(hash "` + k + `in" 1 "` + k + `ib" "s")`
+			}
+			sb.WriteString(` "` + k + `" ` + v)
+		}
+		sb.WriteString(")")
+		return sb.String()
+	}
+	for i := 0; i < n/3; i++ {
+		switch g.Rng.Intn(4) {
+		case 0:
+			out = append(out, [2]string{"string-keys-json-roundtrip", "(def h0 " + strHash() + ") (def h (unjson (json h0))) " + detObserveDecoded(g)})
+		case 1:
+			out = append(out, [2]string{"string-keys-msgpack-roundtrip", "(def h0 " + strHash() + ") (def h (unmsgpack (msgpack h0))) " + detObserveDecoded(g)})
+		case 2:
+			out = append(out, [2]string{"string-keys-encode-only", "(def h0 " + strHash() + ") (list (raw2str (json h0)) (base64 (msgpack h0)) (str h0))"})
+		case 3:
+			out = append(out, [2]string{"string-keys-to-symbols", "(def h0 " + strHash() + ") (def h (hash)) (range k v h0 (hset h (str2sym k) v)) " + detObserveDecoded(g)})
+		}
+	}
 	for i := 0; i < n; i++ {
 		switch g.Rng.Intn(4) {
 		case 0:
